@@ -516,7 +516,8 @@ PROPS['C12'] = dict(
         dict(name='pipelab', bin='pipelab', variant='asan', mode='c12',
              quick=100000, thorough=3000000, leak_check=True,
              require=['c12.lodging_checks', 'c12.answered', 'c12.replumb',
-                      'c12.unregister']),
+                      'c12.unregister', 'c12.chains_with_queue',
+                      'c12.renewed_in_callback']),
     ],
 )
 
